@@ -121,3 +121,19 @@ package balance
 //@   modifies nothing
 //@   ensures balance != nil && fresh(balance)
 //@   ensures err == nil ==> balanceOK(balance)
+
+// parsing an amount from text is a function of the text (T-BIG/T-STR) — assumed
+//@ ghost func parseAmt(s string, base int) int
+//@ assume func NewAmountFromString
+//@   modifies nothing
+//@   ensures err == nil ==> result0 != nil && fresh(result0) && big(result0) == parseAmt(x, base)
+//@   ensures err != nil ==> result0 == nil
+
+// currency list helpers (loops over the registered currencies; read-only) — assumed
+//@ assume func (CurrencySet).GetCurrencies
+//@   modifies nothing
+//@   ensures (forall n string :: has(c.nameMap, n) ==> c.nameMap[n].Name == n) ==> forall i int :: 0 <= i && i < len(result) ==> has(c.nameMap, result[i].Name) && c.nameMap[result[i].Name] == result[i]
+//@ assume func (Currencies).GetCurrencySet
+//@   modifies nothing
+//@   ensures result != nil && fresh(result) && result.nameMap != nil
+//@   ensures forall n string :: has(result.nameMap, n) ==> exists i int :: 0 <= i && i < len(cs) && cs[i].Name == n && result.nameMap[n] == cs[i]
